@@ -115,6 +115,16 @@ def judge_history(R, mb, bk, s0, hist, n=1):
                 return v
             if k in 'cr' and 0 not in s:
                 return 'no file at the configured path after %r' % (op,)
+            cat = b''.join(s[i] for i in sorted(s, reverse=True))
+            if mb == 0 and s != {0: eff}:
+                return 'maxbytes=0: the log does not hold everything written (%d of %d bytes)' % (len(cat), len(eff))
+            if mb > 0 and k == 'w':
+                msg = bytes(op[-1])
+                before = prev.get(0, b'') if isinstance(prev, dict) else b''
+                if bk >= 1 and len(cat) < len(msg):
+                    return 'the message just written (%d bytes) is not in the files' % len(msg)
+                if bk <= 0 and s.get(0) != (b'' if len(before + msg) >= mb else before + msg):
+                    return 'backups=0: the log is neither the old content plus the message nor emptied at maxbytes'
         prev = s
     return None
 
